@@ -58,6 +58,11 @@ STRUCTS = {
     # C01 speaks of DISTINCT atoms per match, which such a match cannot satisfy
     'S33': ('chain4', [dict(kind='raw', el=['Cu', 'O', 'He'], pos=[(0.5, 5.0, 5.0), (2.5, 5.3, 5.0), (1.0, 1.0, 8.0)])], 'CuOCu'),
     'S34': ('chain4t', [dict(kind='raw', el=['C', 'C', 'He'], pos=[(0.5, 5.0, 5.0), (2.5, 5.0, 5.0), (1.0, 1.0, 8.0)])], 'CCC-chain'),
+    # the mirror-image candidate of the copy consists of periodic images of the SAME atoms (its off-plane atom taken one cell lower)
+    'S35': ('ohalf', [dict(motif='halfcell4', pose='id', at=(3.0, 3.0, 1.5)), dict(motif='halfcell4', pose='rz90', at=(8.0, 7.0, 4.0))], 'halfcell4'),
+    # a mixed-occupancy site: F and O listed at bit-identical coordinates, F first; the pattern needs the O
+    'S36': ('o1', [dict(kind='raw', el=['F', 'C', 'H', 'N', 'O'], pos=[(0, 0, 1.4), (0, 0, 0), (1.0, 0, 0), (0, 1.2, 0), (0, 0, 1.4)], pose='p1', at=(2.0, 3.0, 4.0)),
+                   dict(kind='raw', el=['C', 'H', 'N', 'O', 'O'], pos=[(0, 0, 0), (1.0, 0, 0), (0, 1.2, 0), (0, 0, 1.4), (0, 0, 1.4)], pose='p4', at=(6.5, 7.0, 8.0))], 'chiral4'),
     # orthogonal cell whose vectors are not axis-aligned
     'S22': ('orot', [dict(motif='chiral4', pose='p1', at=(1.0, 6.0, 4.0)), dict(motif='chiral4', pose='p4', at=(-3.0, 9.0, 9.0)),
                      dict(motif='chiral4', pose='p2', at=(-1.0, 3.0, 7.0), kind='mirror')], 'chiral4'),
@@ -80,7 +85,7 @@ STRUCTS = {
     'S27b': ('o2', [dict(kind='raw', el=['H', 'C', 'F', 'H', 'Cl'], pos=[(-0.4, 0.9, -0.45), (0, 0, 0), (1.35, 0, 0), (-0.4, 0.9, 0.45), (-0.7, -1.5, 0.0)], pose='p3', at=(3.0, 6.0, 4.0))], 'CFH'),
     'S27c': ('t1', [dict(kind='raw', el=['H', 'H', 'C', 'F', 'Cl'], pos=[(-0.4, 0.9, -0.45), (-0.4, 0.9, 0.45), (0, 0, 0), (1.35, 0, 0), (-0.7, -1.5, 0.0)], pose='rz90', at=(3.0, 4.0, 3.0))], 'CFH'),
 }
-EXPECTED = {'S33': [(0, 1, 0)], 'S34': [(0, 1, 0), (1, 0, 1)], 'S27': [(1, 2, 0), (1, 2, 3)], 'S27b': [(1, 2, 0), (1, 2, 3)], 'S27c': [(2, 3, 0), (2, 3, 1)]}
+EXPECTED = {'S36': [(1, 2, 3, 4), (5, 6, 7, 8), (5, 6, 7, 9)], 'S33': [(0, 1, 0)], 'S34': [(0, 1, 0), (1, 0, 1)], 'S27': [(1, 2, 0), (1, 2, 3)], 'S27b': [(1, 2, 0), (1, 2, 3)], 'S27c': [(2, 3, 0), (2, 3, 1)]}
 PERMS = {'S25': [0, 5, 1, 6, 2, 7, 3, 8, 4, 9]}
 PAT_POSE = {'S14': 'rz90', 'S15': 'ry90', 'S20': 'diag111', 'S21': 'diag1-11'}
 # stretch kind with factor 0.01 on a 1.3 A motif = 0.013 A: well inside the tolerance -> counts as an occurrence
@@ -214,6 +219,10 @@ def std_instances(tier, seed, families=('face',)):
         add(f"find:S27c:axis{ax}:two-occurrences-sharing-atoms", struct='S27c', axes=[ax], other=(0.65, 0.1, 0.45), cost=10)
     for sname in ('S30', 'S31'):
         add(f"find:{sname}:axis1:strongly-tilted-cell", struct=sname, axes=[1], other=(0.15, 0, 0.4), cost=40)
+    for ax in (0, 2):
+        add(f"find:S35:axis{ax}:off-plane-atom-half-a-cell-edge-above-the-plane", struct='S35', axes=[ax], other=(0.1, 0.3, 0.2), cost=20)
+    add("find:S36:axis1:two-atoms-at-identical-coordinates", struct='S36', axes=[1], other=(0.2, 0, 0.6), cost=25)
+    add("find:S36:axis0:two-atoms-at-identical-coordinates", struct='S36', axes=[0], other=(0, 0.5, 0.1), cost=25)
     add("find:S30:axis0:strongly-tilted-cell", struct='S30', axes=[0], other=(0, 0.55, 0.8), cost=40)
     # a pattern element that does not occur in the structure at all (and sorts before / after the ones that do): no match
     add("find:S5:axis0:pattern-element-absent-from-structure:B", struct='S5', axes=[0], other=(0, 0.4, 0.7), pat_elements=['B', 'H'], cost=10)
